@@ -22,6 +22,7 @@ VENV_PY = os.environ.get("MOKAPOT_PY", "/venv/bin/python")
 
 from .engine import Exec, Stale, Unsupported, find_function, strip_for_hash  # noqa: E402
 from .lib import LIB  # noqa: E402
+from . import libnp, libstr  # noqa: E402,F401  (register the assumed library contracts)
 from . import solve  # noqa: E402
 from .spec import Contract  # noqa: E402
 
@@ -472,6 +473,7 @@ def main(argv=None):
     ap.add_argument("--only", help="restrict to contracts whose target contains this text (debugging)")
     ap.add_argument("--no-bounded", action="store_true")
     ap.add_argument("--keep", action="store_true")
+    ap.add_argument("--mutants", action="store_true", help="run the in-memory mutation canaries in any tier")
     args = ap.parse_args(argv)
     if args.replay:
         out = native_replay(os.path.abspath(args.replay)) if json.load(open(args.replay)).get("inputs") is not None \
@@ -502,8 +504,9 @@ def main(argv=None):
         triage(run, failed, known, mods)
         if not args.no_bounded:
             run_bounded(run, mod, known)
-        if run.tier == "thorough":
+        if run.tier == "thorough" or args.mutants:
             run_mutants(run, mod, contracts, registry)
+            print("mutation canaries: %s" % run.mutants)
             if run.mutants["survived"]:
                 run.errors.append("mutation canaries survived (contract too weak or engine unsound): %s"
                                   % run.mutants["survived"])
